@@ -169,6 +169,28 @@ def constructed(rng):
                     if 0 <= n <= 18:
                         add("mulr", G.fD(sg(rng, pr[0]), p), G.fD(sg(rng, pr[1]), q), n)
                         break
+    # --- 256-bit intermediate whose top 64-bit word is a multiple of the 64-bit divisor and whose next word is smaller
+    #     than it (a quotient word that vanishes): the result is far beyond i128 and must be signalled
+    for op, l, r, n in K.api_small_divisor_top_word(rng, 60, G.fD):
+        add(op, l, r, n)
+        if op == "divr" and n == 0 and rng.random() < 0.5:
+            add("quant", l, r)
+    # --- operands at floor(T / 10^k) +- 2 for every primitive-type maximum T where k is the scaling the op applies
+    for v, k in G.type_scaled_thresholds():
+        for _try in range(3):
+            n = rng.randrange(0, 19)
+            q = rng.randrange(0, 19)
+            p = n + q - k                       # dividend scaled by 10^k
+            if 0 <= p <= 18:
+                add("divr", G.fD(v, p), G.fD(rng.choice((1, -1, 3, 7, rng.randrange(1, 10 ** 9))), q), n)
+                break
+        for _try in range(3):
+            n = rng.randrange(0, 19)
+            p = rng.randrange(0, 19)
+            q = p - n - k                       # divisor scaled by 10^k
+            if 0 <= q <= 18:
+                add("divr", G.fD(rng.randrange(-M, M), p), G.fD(v, q), n)
+                break
     # --- the classic double-rounding witnesses, all shapes
     for n in range(0, 4):
         for a, p, bi in ((101, 2, 2), (-101, 2, 2), (1001, 3, 2), (5000001, 6, 10), (1, 18, 3), (-1, 18, 7),
